@@ -101,6 +101,23 @@ def cases(rng):
             for i in ptr_pos:
                 c = call_case(params, list(params), 'noaddr', noaddr=i)
                 out.append((c[0], c[1], c[2] + ' with the & missing on argument %d' % i))
+    # literal operands: a suffixed literal has the type of its suffix, a naked decimal takes the type of the other operand
+    for t in INTS:
+        for suf in rng.sample(INTS, 3) + [t]:
+            for op in ('+', '=='):
+                if op == '+':
+                    src = 'fn f(a: %s)\n{\n\tvar r = a + 5%s;\n}\n' % (t, suf)
+                else:
+                    src = 'fn f(a: %s)\n{\n\tif a == 5%s\n\t{\n\t\tgoto end;\n\t}\n\tend:\n}\n' % (t, suf)
+                out.append((src, 'accept' if suf == t else 'reject:551', '%s %s 5%s (literal typed by its suffix)' % (t, op, suf)))
+        out.append(('fn f(a: %s)\n{\n\tvar r = a + 5;\n}\n' % t, 'accept', '%s + 5 (naked literal takes the type of the other operand)' % t))
+    out.append(('fn f(a: bool)\n{\n\tif a == 1\n\t{\n\t\tgoto end;\n\t}\n\tend:\n}\n', 'reject:551', 'bool == 1 (an integer literal is not a bool)'))
+    # `as` casts: only integer <-> integer, u8 <-> char8, bool -> integer (and the identity)
+    CT = INTS + ['bool', 'char8']
+    for a in CT:
+        for b in CT:
+            ok = a == b or (a in INTS and b in INTS) or (a, b) in (('u8', 'char8'), ('char8', 'u8')) or (a == 'bool' and b in INTS)
+            out.append(('fn f(c: %s)\n{\n\tvar r = c as %s;\n}\n' % (a, b), 'accept' if ok else 'reject:552', '%s as %s' % (a, b)))
     # pointers to sized arrays: the length is part of the type
     for (la, lb) in ((3, 5), (5, 3), (1, 2)):
         out.append(('fn g(p: &[%d]i32)\n{\n}\n\nfn f()\n{\n\tvar m: [%d]i32 = [%s];\n\tg(&m);\n}\n' % (lb, la, ', '.join('1' for _ in range(la))),
